@@ -49,16 +49,22 @@ pub fn gen_case(rng: &mut Rng, _thorough: bool, case: u64) -> J {
     let immediate = !barrier && !zero_budget && crits.len() == 1 && rng.chance(1, 4);
     if immediate { let n = 300 + rng.below(900) as usize; crits = vec![(json!({"numEval": n}), TerminationCriterion::NumObjFuncEval(n))]; }
     let n1 = if immediate { match crits[0].1 { TerminationCriterion::NumObjFuncEval(n) => n, _ => n1 } } else { n1 };
+    // near-target family: the first result is ONE ulp above the target, the eleventh is the target itself
+    let near_target = !barrier && !zero_budget && !immediate && rng.chance(1, 12);
+    if near_target { crits = vec![(json!({"numEval": 40}), TerminationCriterion::NumObjFuncEval(40)), (json!({"target": f64_model(1.0)}), TerminationCriterion::TargetObjFuncVal(1.0))]; if rng.chance(1, 2) { crits.swap(0, 1); } }
+    let n1 = if near_target { 40 } else { n1 };
+    let nc = if near_target { 1 } else { nc };
+    let threaded = if near_target { false } else { threaded };
     let want_live = nc.min(n1);
     // stalled report sink: the detailed report file is a FIFO that nobody reads until the whole budget has been started
     // (think of an output directory on a slow share).  The budget is far below the report channel's capacity, so the
     // optimisation must not care: finished evaluations are replaced all the same.
-    let stalled = !barrier && !zero_budget && !immediate && crits.len() == 1 && rng.chance(1, 4);
+    let stalled = !barrier && !zero_budget && !immediate && !near_target && crits.len() == 1 && rng.chance(1, 4);
     // ... and in some of these a time limit expires while the controller has finished and the report writer is still
     // waiting for the sink: the result is there, the limit has nothing left to stop
     let stalled_late = stalled && rng.chance(1, 3);
     if stalled_late { crits.push((json!({"after": 1500}), TerminationCriterion::TerminateAfter(Duration::from_millis(1500)))); }
-    let fail_at = if !barrier && !stalled && !immediate && rng.chance(1, 4) { Some(rng.below(n1 as u64 + 5) as usize) } else { None };
+    let fail_at = if !barrier && !stalled && !immediate && !near_target && rng.chance(1, 4) { Some(rng.below(n1 as u64 + 5) as usize) } else { None };
     let rej_permille = *rng.pick(&[0u64, 0, 200]);
     let calls = Arc::new(AtomicUsize::new(0));
     let live = Arc::new(AtomicUsize::new(0));
@@ -76,6 +82,7 @@ pub fn gen_case(rng: &mut Rng, _thorough: bool, case: u64) -> J {
         let x = v["x"].as_f64().unwrap_or(0.0);
         let n = v["n"].as_i64().unwrap_or(0) as f64;
         l2.fetch_sub(1, Ordering::SeqCst);
+        if near_target { return Some(match k { 0 => f64::from_bits(1.0f64.to_bits() + 1), 10 => 1.0, _ => 2.0 + k as f64 }); }
         let mut h = Rng::new(script_seed ^ k as u64);
         if fail_at == Some(k) { return Some(f64::NAN); }                     // a non-finite value is a failure
         if h.below(1000) < rej_permille { return None; }
@@ -100,7 +107,7 @@ pub fn gen_case(rng: &mut Rng, _thorough: bool, case: u64) -> J {
     } else { None };
     let spec = spec_util::from_yaml_str(SPEC).unwrap();
     // a guess of JSON null does not conform to this spec (its root is a mapping): rejected before anything is evaluated
-    let null_guess = !barrier && !stalled && rng.chance(1, 10);
+    let null_guess = !barrier && !stalled && !near_target && rng.chance(1, 10);
     let guess: Option<J> = if null_guess { Some(J::Null) } else { None };
     let cap_len = || std::env::var("CVH_STDOUT_CAP").ok().and_then(|p| std::fs::metadata(p).ok()).map(|m| m.len()).unwrap_or(0);
     let cap0 = cap_len();
@@ -178,7 +185,7 @@ pub fn gen_case(rng: &mut Rng, _thorough: bool, case: u64) -> J {
         std::process::Command::new(std::env::current_exe().unwrap()).arg("signal-child").output().ok()
             .and_then(|o| serde_json::from_slice::<J>(&o.stdout).ok()).unwrap_or(json!("no-output"))
     } else { J::Null };
-    json!({"mode": "run", "signalTwin": signal_twin, "nullGuess": null_guess, "stdoutNoise": stdout_noise, "stalledLate": stalled_late, "configs": cfgs, "criteria": crits.iter().map(|c| c.0.clone()).collect::<Vec<_>>(), "nc": nc, "threaded": threaded, "barrier": barrier, "immediate": immediate, "tiny": scale != 1.0, "failAt": fail_at,
+    json!({"mode": "run", "nearTarget": near_target, "signalTwin": signal_twin, "nullGuess": null_guess, "stdoutNoise": stdout_noise, "stalledLate": stalled_late, "configs": cfgs, "criteria": crits.iter().map(|c| c.0.clone()).collect::<Vec<_>>(), "nc": nc, "threaded": threaded, "barrier": barrier, "immediate": immediate, "tiny": scale != 1.0, "failAt": fail_at,
            "calls": calls.load(Ordering::SeqCst), "maxLive": max_live.load(Ordering::SeqCst), "ret": ret,
            "csvRows": rows.len(), "rowObjs": row_objs, "rowInputs": row_inputs, "bestFile": best_file, "bestLate": best_late, "stalledStarted": stalled_started,
            "sampleSize": ss_run, "rowPairs": if immediate { json!(row_pairs) } else { J::Null }, "callPairs": if immediate { json!(call_pairs) } else { J::Null }})
